@@ -10,7 +10,6 @@
 From EV Require Import Base.Bytes Base.Store Base.Monad gen.Consts Codec.Types Helpers.Helpers
   Ledger.Types Ledger.Env Ledger.Funcs Ledger.Transfers LedgerProofs.Defs LedgerProofs.EnvSpec.
 
-Arguments skv_loop : simpl never.
 Arguments msg_data : simpl never.
 Arguments log_esdt : simpl never.
 Arguments compute_gas_remaining : simpl never.
@@ -82,6 +81,12 @@ Ltac ue_chain :=
     | H : wr _ _ _ _ s ?s1 |- _ =>
         apply (unchanged_except_trans F G s s1 s');
         [apply (wr_ue _ F G _ _ _ _ _ H); cbv beta; auto|clear H; ue_chain]
+    | H : unchanged_except _ _ s s' |- _ =>
+        refine (unchanged_except_weaken _ F _ G s s' _ _ H); cbv beta; intros; intuition (subst; auto)
+    | H : unchanged_except _ _ s ?s1 |- _ =>
+        apply (unchanged_except_trans F G s s1 s');
+        [refine (unchanged_except_weaken _ F _ G s s1 _ _ H); cbv beta; intros; intuition (subst; auto)
+        |clear H; ue_chain]
     end
   end.
 Ltac nf_chain :=
@@ -145,12 +150,12 @@ Section Spec.
     rewrite Ha in H. apply bind_ok in H as (tok' & s1 & H1 & H). apply arg_ok in H1 as (Hn & _ & ->).
     simpl in Hn. inversion Hn; subst tok'. clear Hn.
     apply bind_ok in H as (u2 & s2 & H2 & H). apply bind_ok in H as (u3 & s3 & H3 & H).
-    apply bind_ok in H as (u4 & s4 & H4 & H). apply ret_ok in H as [-> ->].
-    assert (Hcalls : calls s4 = (calls s + 3)%nat).
+    apply bind_ok in H as (u4 & s4 & H4 & H). apply ret_ok in H as [-> <-].
+    assert (Hcalls : calls s' = (calls s + 3)%nat).
     { apply dep_ok in H2 as (_ & _ & C2 & _). apply save_kv_calls in H3 as (_ & C3).
       apply dep_ok in H4 as (_ & _ & C4 & _). lia. }
     apply load_account_ok in H2. apply save_kv_ok in H3. apply save_account_ok in H4.
-    assert (Hw : wr E SYS (P ++ tok) (flag_bytes p) s s4) by (eapply wr_rd; [eapply rd_wr|]; eauto).
+    assert (Hw : wr E SYS (P ++ tok) (flag_bytes p) s s') by (eapply wr_rd; [eapply rd_wr|]; eauto).
     split; [auto|]. exists tok. split; [exact Ha|]. split; [reflexivity|].
     split; [apply (wr_cell_eq _ _ _ _ _ _ Hw)|].
     split; [rewrite (wr_paused_at_eq _ _ _ _ _ Hw); apply paused_val_flag_bytes|].
@@ -185,7 +190,7 @@ Section Spec.
     rewrite Ha in H. apply bind_ok in H as (tok' & s1 & H1 & H). apply arg_ok in H1 as (Hn & _ & ->).
     simpl in Hn. inversion Hn; subst tok'. clear Hn. cbv zeta in H.
     apply bind_ok in H as (t & s1 & H1 & H). apply (get_esdt_data_ok E Hc) in H1 as (Hr & Ht & Hwf).
-    apply bind_ok in H as (u2 & s2 & H2 & H). apply ret_ok in H as [-> ->].
+    apply bind_ok in H as (u2 & s2 & H2 & H). apply ret_ok in H as [-> <-].
     apply save_esdt_data_ok in H2 as (v & Hval & Hw). cbn [set_props t_value t_props] in Hval, Hw.
     rewrite all_zero_flag_bytes in Hw.
     assert (Hw' := rd_wr _ _ _ _ _ _ _ Hr Hw). clear Hw Hr. rename Hw' into Hw.
@@ -230,7 +235,7 @@ Section Spec.
     simpl in Hn. inversion Hn; subst tok'. clear Hn. cbv zeta in H.
     apply bind_ok in H as (t & s1 & H1 & H). apply (get_esdt_data_ok E Hc) in H1 as (Hr & Ht & Hwf).
     apply bind_ok in H as (u2 & s2 & H2 & H). apply guard_ok in H2 as [Hfr ->].
-    apply bind_ok in H as (u3 & s3 & H3 & H). apply ret_ok in H as [-> ->].
+    apply bind_ok in H as (u3 & s3 & H3 & H). apply ret_ok in H as [-> <-].
     apply save_kv_ok in H3. assert (Hw := rd_wr _ _ _ _ _ _ _ Hr H3). clear H3 Hr.
     assert (Hta : tok_at E s (i_rcpt i) (P ++ tok) = Some t).
     { destruct (tod_cases _ _ _ _ _ Ht) as [(_ & -> & _)|(_ & Hx)]; [discriminate Hfr|exact Hx]. }
@@ -271,11 +276,1009 @@ Section Spec.
     apply get_roles_roles_at in H1 as [-> Hr].
     apply bind_ok in H as (rs' & s2 & H2 & H). apply args_from_ok in H2 as (_ & -> & ->).
     change (skipn (N.to_nat 1) (tok :: rs)) with rs in H.
-    apply bind_ok in H as (u3 & s3 & H3 & H). apply ret_ok in H as [-> ->].
+    apply bind_ok in H as (u3 & s3 & H3 & H). apply ret_ok in H as [-> <-].
     apply save_roles_ok in H3. assert (Hw := rd_wr _ _ _ _ _ _ _ Hr H3). clear H3 Hr.
     split; [auto|]. exists tok, rs. split; [reflexivity|]. split; [reflexivity|]. split.
     { destruct isNew; [left; tauto|right]. destruct Hcase as [_ ->]. discriminate. }
     split; [apply (wr_roles_at_eq E Hc _ _ _ _ _ Hw)|].
     split; [apply (wr_unchanged _ _ _ _ _ _ Hw)|apply (wr_nofault _ _ _ _ _ _ Hw)].
   Qed.
+  (* ================================================================== *)
+  (* 5. ESDTNFTCreateRoleTransfer                                        *)
+  (* ================================================================== *)
+  Definition add_create (r : roles) : roles :=
+    if bytes_in C.ESDTRoleNFTCreate r then r else r ++ [C.ESDTRoleNFTCreate].
+  Definition del_create (r : roles) : roles := delete_roles r [C.ESDTRoleNFTCreate].
+  (* the hand-over message emitted at the current owner *)
+  Definition handover_msg (caller tok : bytes) (n : N) : transfer :=
+    {| tr_value := 0; tr_gasLimit := 0; tr_gasLocked := 0;
+       tr_data := msg_data C.BuiltInFunctionESDTNFTCreateRoleTransfer [tok; u64_bytes n];
+       tr_callType := C.DirectCall; tr_sender := caller |}.
+
+  Lemma In_add_create r : In C.ESDTRoleNFTCreate (add_create r).
+  Proof.
+    unfold add_create. destruct (bytes_in C.ESDTRoleNFTCreate r) eqn:Eb.
+    - apply bytes_in_true. exact Eb.
+    - apply in_or_app. right. left. reflexivity.
+  Qed.
+  Lemma add_create_keeps r x : In x r -> In x (add_create r).
+  Proof. unfold add_create. destruct (bytes_in C.ESDTRoleNFTCreate r); [auto|]. intros H. apply in_or_app. auto. Qed.
+  Lemma add_create_only r x : In x (add_create r) -> In x r \/ x = C.ESDTRoleNFTCreate.
+  Proof.
+    unfold add_create. destruct (bytes_in C.ESDTRoleNFTCreate r); [auto|]. intros H.
+    apply in_app_or in H as [H|[H|[]]]; auto.
+  Qed.
+  Lemma del_create_In r x : In x (del_create r) -> In x r.
+  Proof. apply delete_roles_In. Qed.
+  Lemma del_create_keeps r x : x <> C.ESDTRoleNFTCreate -> In x r -> In x (del_create r).
+  Proof. intros Hne. apply delete_roles_keep. intros [H|[]]. congruence. Qed.
+  Lemma del_create_removed r : NoDup r -> ~ In C.ESDTRoleNFTCreate (del_create r).
+  Proof. intros Hnd. apply delete_roles_removed; [exact Hnd|left; reflexivity]. Qed.
+
+  Lemma delete_create_role_ok a tok s u s' :
+    delete_create_role E a (RP ++ tok) s = (Ok u, s') ->
+    wr E a (RP ++ tok) (enc_rol (cdc E) (del_create (roles_at E s a tok))) s s'
+    /\ (cell s a (RP ++ tok) = [] \/ dec_rol (cdc E) (cell s a (RP ++ tok)) <> None).
+  Proof.
+    unfold delete_create_role. intros H.
+    apply bind_ok in H as ([r isNew] & s1 & H1 & H).
+    pose proof (get_roles_ok _ _ _ _ _ _ _ H1) as [_ Hcase].
+    apply get_roles_roles_at in H1 as [-> Hr].
+    apply save_roles_ok in H. split; [eapply rd_wr; eauto|].
+    destruct isNew; [left; tauto|right]. destruct Hcase as [_ ->]. discriminate.
+  Qed.
+
+  Lemma add_create_role_ok a tok s u s' :
+    add_create_role E a (RP ++ tok) s = (Ok u, s') ->
+    roles_at E s' a tok = add_create (roles_at E s a tok)
+    /\ (cell s a (RP ++ tok) = [] \/ dec_rol (cdc E) (cell s a (RP ++ tok)) <> None)
+    /\ unchanged_except (fun a' k' => a' = a /\ k' = RP ++ tok) (fun _ => False) s s'
+    /\ nofault E s s'
+    /\ (has_role E s a tok C.ESDTRoleNFTCreate = true -> rd E s s').
+  Proof.
+    unfold add_create_role. intros H.
+    apply bind_ok in H as ([r isNew] & s1 & H1 & H).
+    pose proof (get_roles_ok _ _ _ _ _ _ _ H1) as [_ Hcase].
+    apply get_roles_roles_at in H1 as [-> Hr].
+    assert (Hdec : cell s a (RP ++ tok) = [] \/ dec_rol (cdc E) (cell s a (RP ++ tok)) <> None).
+    { destruct isNew; [left; tauto|right]. destruct Hcase as [_ ->]. discriminate. }
+    unfold add_create, has_role.
+    destruct (bytes_in C.ESDTRoleNFTCreate (roles_at E s a tok)) eqn:Eb.
+    - apply ret_ok in H as [_ <-]. split; [apply (rd_roles_at _ _ _ _ _ Hr)|]. split; [exact Hdec|].
+      split; [apply rd_unchanged with (E := E); exact Hr|]. split; [apply (rd_nofault _ _ _ Hr)|auto].
+    - apply save_roles_ok in H. assert (Hw := rd_wr _ _ _ _ _ _ _ Hr H).
+      split; [apply (wr_roles_at_eq E Hc _ _ _ _ _ Hw)|]. split; [exact Hdec|].
+      split; [apply (wr_unchanged _ _ _ _ _ _ Hw)|]. split; [apply (wr_nofault _ _ _ _ _ _ Hw)|discriminate].
+  Qed.
+
+  Lemma counter_at_u64 s a tok : u64 (counter_at s a tok) = counter_at s a tok.
+  Proof. apply u64_small, counter_at_lt. Qed.
+
+  (* common guards *)
+  Lemma role_transfer_guards i s o s' :
+    f_create_role_transfer E i s = (Ok o, s') ->
+    i_value i = 0%Z /\ i_snd i = false /\ i_dst i = true /\ exists tok a1, i_args i = [tok; a1].
+  Proof.
+    unfold f_create_role_transfer. cbv zeta. intros H.
+    apply bind_ok in H as (u0 & s0 & H0 & H). apply check_basic_ok in H0 as (Hv & Hlen & ->).
+    apply bind_ok in H as (u1 & s1 & H1 & H). apply guard_ok in H1 as [Hsnd ->].
+    apply bind_ok in H as (u2 & s2 & H2 & H). apply guard_ok in H2 as [Hdst ->].
+    split; [exact Hv|]. split; [destruct (i_snd i); [discriminate|reflexivity]|]. split; [exact Hdst|].
+    destruct (beqb (i_caller i) SC);
+      apply bind_ok in H as (u3 & s3 & H3 & H); apply guard_ok in H3 as [Hl ->];
+      apply N.eqb_eq in Hl; apply alen_2; exact Hl.
+  Qed.
+
+  (* (a) executed at the current owner (= recipient), called by the system contract *)
+  Lemma role_transfer_owner_spec i s o s' :
+    f_create_role_transfer E i s = (Ok o, s') -> i_caller i = SC ->
+    (i_value i = 0%Z /\ i_snd i = false /\ i_dst i = true)
+    /\ exists tok newOwner, i_args i = [tok; newOwner]
+       /\ zlen newOwner = zlen (i_caller i)
+       /\ o = set_accounts (mk_out rcOk 0)
+                [{| oc_addr := newOwner; oc_delta := 0;
+                    oc_transfers := [handover_msg (i_caller i) tok (counter_at s (i_rcpt i) tok)] |}]
+       /\ (cell s (i_rcpt i) (RP ++ tok) = [] \/ dec_rol (cdc E) (cell s (i_rcpt i) (RP ++ tok)) <> None)
+       /\ (if (shard_of E newOwner =? self_shard E)%N then
+             (* same shard: the new owner's account is updated directly *)
+             counter_at s' newOwner tok = counter_at s (i_rcpt i) tok
+             /\ roles_at E s' newOwner tok =
+                add_create (if beqb newOwner (i_rcpt i) then del_create (roles_at E s (i_rcpt i) tok)
+                            else roles_at E s newOwner tok)
+             /\ (newOwner <> i_rcpt i ->
+                 counter_at s' (i_rcpt i) tok = 0%N
+                 /\ roles_at E s' (i_rcpt i) tok = del_create (roles_at E s (i_rcpt i) tok))
+             /\ unchanged_except (fun a k => (a = i_rcpt i \/ a = newOwner) /\ (k = NP ++ tok \/ k = RP ++ tok))
+                                 (fun _ => False) s s'
+           else
+             (* cross shard: only the old owner changes here; the counter travels in the message *)
+             counter_at s' (i_rcpt i) tok = 0%N
+             /\ roles_at E s' (i_rcpt i) tok = del_create (roles_at E s (i_rcpt i) tok)
+             /\ unchanged_except (fun a k => a = i_rcpt i /\ (k = NP ++ tok \/ k = RP ++ tok))
+                                 (fun _ => False) s s')
+       /\ nofault E s s'.
+  Proof.
+    intros H Hcl. pose proof (role_transfer_guards _ _ _ _ H) as (Hv & Hsnd & Hdst & tok & newOwner & Ha).
+    split; [auto|]. exists tok, newOwner. split; [exact Ha|].
+    unfold f_create_role_transfer in H. cbv zeta in H. rewrite Ha in H.
+    apply bind_ok in H as (u0 & s0 & H0 & H). apply check_basic_ok in H0 as (_ & _ & ->).
+    apply bind_ok in H as (u1 & s1 & H1 & H). apply guard_ok in H1 as [_ ->].
+    apply bind_ok in H as (u2 & s2 & H2 & H). apply guard_ok in H2 as [_ ->].
+    assert (Hb : beqb (i_caller i) SC = true) by (rewrite Hcl; apply beqb_refl). rewrite Hb in H. clear Hb.
+    apply bind_ok in H as (u3 & s3 & H3 & H). apply guard_ok in H3 as [_ ->].
+    apply bind_ok in H as (tok' & s1 & H1 & H). apply arg_ok in H1 as (Hn & _ & ->).
+    simpl in Hn. inversion Hn; subst tok'. clear Hn.
+    apply bind_ok in H as (no' & s1 & H1 & H). apply arg_ok in H1 as (Hn & _ & ->).
+    simpl in Hn. inversion Hn; subst no'. clear Hn.
+    apply bind_ok in H as (u4 & s4 & H4 & H). apply guard_ok in H4 as [Hlen ->]. apply N.eqb_eq in Hlen.
+    apply bind_ok in H as (n & s1 & H1 & H). apply get_latest_nonce_ok in H1 as [-> ->].
+    apply bind_ok in H as (u5 & s1 & H1 & H). apply save_latest_nonce_ok in H1 as [W1 C1].
+    apply bind_ok in H as (u6 & s2 & H2 & H). apply delete_create_role_ok in H2 as [W2 Hdec].
+    assert (NR : forall x y, NP ++ x <> RP ++ y) by (intros x y Hx; symmetry in Hx; revert Hx; apply RP_NP_disjoint).
+    assert (RN : forall x y, RP ++ x <> NP ++ y) by apply RP_NP_disjoint.
+    assert (R1 : roles_at E s1 (i_rcpt i) tok = roles_at E s (i_rcpt i) tok).
+    { apply (wr_roles_at_other _ _ _ _ _ _ _ _ W1). right. apply RN. }
+    rewrite R1 in W2.
+    rewrite (wr_cell_other _ _ _ _ _ _ _ _ W1) in Hdec by (right; apply RN).
+    assert (C2 : counter_at s2 (i_rcpt i) tok = 0%N).
+    { rewrite (wr_counter_at_other _ _ _ _ _ _ _ _ W2) by (right; apply NR). exact C1. }
+    assert (R2 : roles_at E s2 (i_rcpt i) tok = del_create (roles_at E s (i_rcpt i) tok))
+      by apply (wr_roles_at_eq E Hc _ _ _ _ _ W2).
+    split; [exact Hlen|].
+    apply bind_ok in H as (u7 & s3 & H3 & H). apply ret_ok in H as [-> <-].
+    split; [reflexivity|]. split; [exact Hdec|].
+    destruct (shard_of E newOwner =? self_shard E)%N.
+    - apply bind_ok in H3 as (u8 & s4 & H4 & H3). apply load_account_ok in H4.
+      apply bind_ok in H3 as (u9 & s5 & H5 & H3). apply save_latest_nonce_ok in H5 as [W5 C5].
+      apply bind_ok in H3 as (u10 & s6 & H6 & H3). apply add_create_role_ok in H6 as (R6 & _ & U6 & N6 & _).
+      apply save_account_ok in H3. rewrite counter_at_u64 in C5.
+      split; [split; [|split; [|split]]|].
+      + rewrite (rd_counter_at _ _ _ _ _ H3). rewrite (ue_counter_at _ _ _ _ U6); [exact C5|].
+        intros [_ Hx]. revert Hx. apply NR.
+      + rewrite (rd_roles_at _ _ _ _ _ H3), R6. f_equal.
+        rewrite (wr_roles_at_other _ _ _ _ _ _ _ _ W5) by (right; apply RN).
+        rewrite (rd_roles_at _ _ _ _ _ H4).
+        destruct (beqb_spec newOwner (i_rcpt i)) as [->|Hne]; [exact R2|].
+        rewrite (wr_roles_at_other _ _ _ _ _ _ _ _ W2) by (left; exact Hne).
+        apply (wr_roles_at_other _ _ _ _ _ _ _ _ W1). left; exact Hne.
+      + intros Hne. assert (Hne' : i_rcpt i <> newOwner) by congruence. split.
+        * rewrite (rd_counter_at _ _ _ _ _ H3). rewrite (ue_counter_at _ _ _ _ U6) by (intros [Hx _]; contradiction).
+          rewrite (wr_counter_at_other _ _ _ _ _ _ _ _ W5) by (left; exact Hne').
+          rewrite (rd_counter_at _ _ _ _ _ H4). exact C2.
+        * rewrite (rd_roles_at _ _ _ _ _ H3). rewrite (ue_roles_at _ _ _ _ _ U6) by (intros [Hx _]; contradiction).
+          rewrite (wr_roles_at_other _ _ _ _ _ _ _ _ W5) by (left; exact Hne').
+          rewrite (rd_roles_at _ _ _ _ _ H4). exact R2.
+      + ue_chain.
+      + nf_chain.
+    - apply ret_ok in H3 as [_ <-]. split; [|nf_chain].
+      split; [exact C2|]. split; [exact R2|]. ue_chain.
+  Qed.
+  (* (b) the delivered hand-over, executed at the next owner (= recipient); the caller is NOT the
+     system contract (the message carries the previous owner's context).  F9: nothing ties the message
+     to an earlier hand-over: a re-delivered message resets the counter to the carried value again. *)
+  Lemma role_transfer_delivered_spec i s o s' :
+    f_create_role_transfer E i s = (Ok o, s') -> i_caller i <> SC ->
+    (i_value i = 0%Z /\ i_snd i = false /\ i_dst i = true)
+    /\ exists tok a1, i_args i = [tok; a1]
+       /\ o = mk_out rcOk 0
+       /\ (cell s (i_rcpt i) (RP ++ tok) = [] \/ dec_rol (cdc E) (cell s (i_rcpt i) (RP ++ tok)) <> None)
+       /\ counter_at s' (i_rcpt i) tok = bigU64 a1
+       /\ roles_at E s' (i_rcpt i) tok = add_create (roles_at E s (i_rcpt i) tok)
+       /\ unchanged_except (fun a k => a = i_rcpt i /\ (k = NP ++ tok \/ k = RP ++ tok)) (fun _ => False) s s'
+       /\ nofault E s s'.
+  Proof.
+    intros H Hcl. pose proof (role_transfer_guards _ _ _ _ H) as (Hv & Hsnd & Hdst & tok & a1 & Ha).
+    split; [auto|]. exists tok, a1. split; [exact Ha|].
+    unfold f_create_role_transfer in H. cbv zeta in H. rewrite Ha in H.
+    apply bind_ok in H as (u0 & s0 & H0 & H). apply check_basic_ok in H0 as (_ & _ & ->).
+    apply bind_ok in H as (u1 & s1 & H1 & H). apply guard_ok in H1 as [_ ->].
+    apply bind_ok in H as (u2 & s2 & H2 & H). apply guard_ok in H2 as [_ ->].
+    assert (Hb : beqb (i_caller i) SC = false) by (apply beqb_false; exact Hcl). rewrite Hb in H. clear Hb.
+    apply bind_ok in H as (u3 & s3 & H3 & H). apply guard_ok in H3 as [_ ->].
+    apply bind_ok in H as (tok' & s1 & H1 & H). apply arg_ok in H1 as (Hn & _ & ->).
+    simpl in Hn. inversion Hn; subst tok'. clear Hn.
+    apply bind_ok in H as (a1' & s1 & H1 & H). apply arg_ok in H1 as (Hn & _ & ->).
+    simpl in Hn. inversion Hn; subst a1'. clear Hn.
+    apply bind_ok in H as (u5 & s1 & H1 & H). apply save_latest_nonce_ok in H1 as [W1 C1].
+    apply bind_ok in H as (u6 & s2 & H2 & H). apply ret_ok in H as [-> <-].
+    apply add_create_role_ok in H2 as (R2 & Hdec & U2 & N2 & _).
+    assert (NR : forall x y, NP ++ x <> RP ++ y) by (intros x y Hx; symmetry in Hx; revert Hx; apply RP_NP_disjoint).
+    assert (RN : forall x y, RP ++ x <> NP ++ y) by apply RP_NP_disjoint.
+    rewrite (wr_cell_other _ _ _ _ _ _ _ _ W1) in Hdec by (right; apply RN).
+    rewrite (wr_roles_at_other _ _ _ _ _ _ _ _ W1) in R2 by (right; apply RN).
+    split; [reflexivity|]. split; [exact Hdec|]. split.
+    { rewrite (ue_counter_at _ _ _ _ U2) by (intros [_ Hx]; revert Hx; apply NR).
+      rewrite C1. apply u64_small, bigU64_lt. }
+    split; [exact R2|]. split; [ue_chain|nf_chain].
+  Qed.
+
+  (* ================================================================== *)
+  (* 6. ChangeOwnerAddress                                               *)
+  (* ================================================================== *)
+  Lemma change_owner_spec i s o s' :
+    f_change_owner E i s = (Ok o, s') ->
+    i_value i = 0%Z
+    /\ exists a0 rest, i_args i = a0 :: rest
+       /\ zlen a0 = zlen (i_caller i)
+       /\ (g_ChangeOwnerAddress G <= i_gas i)%N
+       /\ o = mk_out rcOk (compute_gas_remaining (i_snd i) (i_gas i) (g_ChangeOwnerAddress G))
+       /\ (i_dst i = false -> s' = s)
+       /\ (i_dst i = true ->
+           i_caller i = a_owner (acct s (i_rcpt i))
+           /\ acct s' (i_rcpt i) = with_owner (acct s (i_rcpt i)) a0
+           /\ (forall a, a <> i_rcpt i -> acct s' a = acct s a)
+           /\ calls s' = S (calls s) /\ allocs s' = allocs s)
+       /\ (forall a k, cell s' a k = cell s a k)
+       /\ unchanged_except (fun _ _ => False) (fun a => a = i_rcpt i /\ i_dst i = true) s s'
+       /\ nofault E s s'.
+  Proof.
+    unfold f_change_owner. cbv zeta. intros H.
+    apply bind_ok in H as (u0 & s0 & H0 & H). apply guard_ok in H0 as [Hlen ->].
+    apply bind_ok in H as (u1 & s1 & H1 & H). apply guard_ok in H1 as [Hv ->]. apply Z.eqb_eq in Hv.
+    apply bind_ok in H as (a0 & s1 & H1 & H). apply arg_ok in H1 as (Hn & _ & ->).
+    destruct (i_args i) as [|a0' rest] eqn:Ha; [discriminate Hn|]. simpl in Hn. inversion Hn; subst a0'. clear Hn.
+    apply bind_ok in H as (u2 & s2 & H2 & H). apply guard_ok in H2 as [Hal ->]. apply N.eqb_eq in Hal.
+    apply bind_ok in H as (u3 & s3 & H3 & H). apply guard_ok in H3 as [Hgas ->].
+    assert (Hg : (g_ChangeOwnerAddress G <= i_gas i)%N)
+      by (destruct (i_gas i <? g_ChangeOwnerAddress G)%N eqn:Eg; [discriminate|lia]).
+    split; [exact Hv|]. exists a0, rest. split; [reflexivity|]. split; [exact Hal|]. split; [exact Hg|].
+    destruct (i_dst i).
+    - cbn [negb] in H.
+      apply bind_ok in H as (d & s1 & H1 & H). apply get_acct_ok in H1 as [-> ->].
+      apply bind_ok in H as (u4 & s4 & H4 & H). apply guard_ok in H4 as [Hown ->]. apply beqb_true in Hown.
+      apply bind_ok in H as (u5 & s5 & H5 & H). pose proof (dep_ok _ _ _ _ H5) as (_ & A5 & C5 & L5). apply dep_rd in H5.
+      apply bind_ok in H as (u6 & s6 & H6 & H). apply ret_ok in H as [-> <-].
+      pose proof (upd_acct_ok _ _ _ _ _ H6) as (_ & C6 & L6).
+      assert (Hacct : forall a, acct s' a = if beqb a (i_rcpt i) then with_owner (acct s (i_rcpt i)) a0 else acct s a).
+      { intros a. rewrite (upd_acct_acct _ _ _ _ _ a H6). rewrite !(rd_acct _ _ _ _ H5). reflexivity. }
+      split; [reflexivity|]. split; [discriminate|]. split.
+      { intros _. split; [exact Hown|]. split; [rewrite Hacct, beqb_refl; reflexivity|].
+        split; [intros a Hne; rewrite Hacct, (beqb_false _ _ Hne); reflexivity|]. split; [lia|congruence]. }
+      split.
+      { intros a k. unfold cell. rewrite Hacct. destruct (beqb a (i_rcpt i)) eqn:Eb; [|reflexivity].
+        apply beqb_true in Eb. subst a. reflexivity. }
+      split.
+      { split.
+        - intros a k _. unfold cell. rewrite Hacct. destruct (beqb a (i_rcpt i)) eqn:Eb; [|reflexivity].
+          apply beqb_true in Eb. subst a. reflexivity.
+        - intros a Hn. rewrite Hacct. destruct (beqb_spec a (i_rcpt i)) as [->|_]; [exfalso; apply Hn; auto|].
+          apply acct_fields_eq_refl. }
+      eapply nofault_trans; [apply (rd_nofault _ _ _ H5)|eapply upd_acct_nofault; eauto].
+    - cbn [negb] in H. apply ret_ok in H as [-> <-].
+      split; [reflexivity|]. split; [reflexivity|]. split; [discriminate|]. split; [reflexivity|].
+      split; [apply unchanged_except_refl|apply nofault_refl].
+  Qed.
+
+  (* ================================================================== *)
+  (* 7. ClaimDeveloperRewards                                            *)
+  (* ================================================================== *)
+  Definition claim_gasrem (i : input) : N :=
+    compute_gas_remaining (i_snd i) (i_gas i) (g_ClaimDeveloperRewards G).
+  (* the output before the "caller is a contract on this shard" adjustment *)
+  Definition claim_out (i : input) (v : Z) : output :=
+    let async := (i_callType i =? C.AsynchronousCall)%N in
+    set_accounts (mk_out rcOk (if async then 0 else claim_gasrem i))
+      [{| oc_addr := i_caller i; oc_delta := v;
+          oc_transfers := [{| tr_value := v; tr_gasLimit := if async then claim_gasrem i else 0;
+                              tr_gasLocked := if async then i_gasLocked i else 0; tr_data := [];
+                              tr_callType := if async then C.AsynchronousCallBack else C.DirectCall;
+                              tr_sender := i_caller i |}] |}].
+
+  Lemma claim_rewards_spec i s o s' :
+    f_claim_rewards E i s = (Ok o, s') ->
+    i_value i = 0%Z
+    /\ (i_dst i = false -> s' = s /\ o = mk_out rcOk (claim_gasrem i))
+    /\ (i_dst i = true ->
+        let v := a_devreward (acct s (i_rcpt i)) in
+        i_caller i = a_owner (acct s (i_rcpt i))
+        /\ (g_ClaimDeveloperRewards G <= i_gas i)%N
+        /\ o = (if (i_snd i && is_sc (i_caller i))%bool then set_accounts (claim_out i v) [] else claim_out i v)
+        /\ (forall a, acct s' a =
+              (if (i_snd i && beqb a (i_caller i))%bool
+               then fun x => with_balance x (a_balance x + v) else fun x => x)
+              ((if beqb a (i_rcpt i) then fun x => with_devreward x 0 else fun x => x) (acct s a)))
+        /\ a_devreward (acct s' (i_rcpt i)) = 0%Z
+        /\ a_balance (acct s' (i_caller i)) =
+           (a_balance (acct s (i_caller i)) + if i_snd i then v else 0)%Z
+        /\ calls s' = (calls s + if i_snd i then 2 else 1)%nat /\ allocs s' = allocs s)
+    /\ (forall a k, cell s' a k = cell s a k)
+    /\ unchanged_except (fun _ _ => False)
+         (fun a => i_dst i = true /\ (a = i_rcpt i \/ (a = i_caller i /\ i_snd i = true))) s s'
+    /\ nofault E s s'.
+  Proof.
+    unfold f_claim_rewards. cbv zeta. intros H.
+    apply bind_ok in H as (u1 & s1 & H1 & H). apply guard_ok in H1 as [Hv ->]. apply Z.eqb_eq in Hv.
+    split; [exact Hv|].
+    destruct (i_dst i).
+    2:{ cbn [negb] in H. apply ret_ok in H as [-> <-]. split; [auto|]. split; [discriminate|].
+        split; [reflexivity|]. split; [apply unchanged_except_refl|apply nofault_refl]. }
+    cbn [negb] in H. split; [discriminate|].
+    apply bind_ok in H as (d & s1 & H1 & H). apply get_acct_ok in H1 as [-> ->].
+    apply bind_ok in H as (u4 & s4 & H4 & H). apply guard_ok in H4 as [Hown ->]. apply beqb_true in Hown.
+    apply bind_ok in H as (u3 & s3 & H3 & H). apply guard_ok in H3 as [Hgas ->].
+    assert (Hg : (g_ClaimDeveloperRewards G <= i_gas i)%N)
+      by (destruct (i_gas i <? g_ClaimDeveloperRewards G)%N eqn:Eg; [discriminate|lia]).
+    apply bind_ok in H as (u5 & s5 & H5 & H). pose proof (dep_ok _ _ _ _ H5) as (_ & A5 & C5 & L5). apply dep_rd in H5.
+    apply bind_ok in H as (u6 & s6 & H6 & H).
+    pose proof (upd_acct_ok _ _ _ _ _ H6) as (_ & C6 & L6).
+    assert (Hacct6 : forall a, acct s6 a = (if beqb a (i_rcpt i) then fun x => with_devreward x 0 else fun x => x) (acct s a)).
+    { intros a. rewrite (upd_acct_acct _ _ _ _ _ a H6). rewrite !(rd_acct _ _ _ _ H5).
+      destruct (beqb_spec a (i_rcpt i)) as [->|_]; reflexivity. }
+    assert (N6 : nofault E s s6) by (eapply nofault_trans; [apply (rd_nofault _ _ _ H5)|eapply upd_acct_nofault; eauto]).
+    fold (claim_gasrem i) in H.
+    set (v := a_devreward (acct s (i_rcpt i))) in *.
+    assert (Main : (forall a, acct s' a =
+              (if (i_snd i && beqb a (i_caller i))%bool
+               then fun x => with_balance x (a_balance x + v) else fun x => x)
+              ((if beqb a (i_rcpt i) then fun x => with_devreward x 0 else fun x => x) (acct s a)))
+            /\ o = (if (i_snd i && is_sc (i_caller i))%bool then set_accounts (claim_out i v) [] else claim_out i v)
+            /\ calls s' = (calls s + if i_snd i then 2 else 1)%nat /\ allocs s' = allocs s /\ nofault E s s').
+    { destruct (i_snd i).
+      - cbn [negb andb] in *.
+        apply bind_ok in H as (u7 & s7 & H7 & H). pose proof (dep_ok _ _ _ _ H7) as (_ & A7 & C7 & L7). apply dep_rd in H7.
+        apply bind_ok in H as (u8 & s8 & H8 & H). apply ret_ok in H as [-> <-].
+        pose proof (upd_acct_ok _ _ _ _ _ H8) as (_ & C8 & L8).
+        split.
+        { intros a. rewrite (upd_acct_acct _ _ _ _ _ a H8). rewrite !(rd_acct _ _ _ _ H7). rewrite !Hacct6.
+          destruct (beqb_spec a (i_caller i)) as [->|_]; reflexivity. }
+        split; [reflexivity|]. split; [lia|]. split; [congruence|].
+        eapply nofault_trans; [exact N6|]. eapply nofault_trans; [apply (rd_nofault _ _ _ H7)|eapply upd_acct_nofault; eauto].
+      - cbn [negb andb] in *. apply ret_ok in H as [-> <-].
+        split; [exact Hacct6|]. split; [reflexivity|]. split; [lia|]. split; [congruence|exact N6]. }
+    destruct Main as (Hacct & Ho & Hcalls & Hallocs & Hnf).
+    assert (Hstore : forall a, a_store (acct s' a) = a_store (acct s a)).
+    { intros a. rewrite Hacct. destruct (i_snd i && beqb a (i_caller i))%bool; destruct (beqb a (i_rcpt i)); reflexivity. }
+    split.
+    { cbv zeta. split; [exact Hown|]. split; [exact Hg|]. split; [exact Ho|]. split; [exact Hacct|].
+      split.
+      { rewrite Hacct, beqb_refl. destruct (i_snd i && beqb (i_rcpt i) (i_caller i))%bool; reflexivity. }
+      split.
+      { rewrite Hacct, beqb_refl. destruct (i_snd i); cbn [andb]; destruct (beqb (i_caller i) (i_rcpt i)); cbn; lia. }
+      split; [exact Hcalls|exact Hallocs]. }
+    split; [intros a k; unfold cell; rewrite Hstore; reflexivity|].
+    split; [|exact Hnf]. split.
+    - intros a k _. unfold cell. rewrite Hstore. reflexivity.
+    - intros a Hn. rewrite Hacct.
+      destruct (beqb_spec a (i_rcpt i)) as [->|Hne1]; [exfalso; apply Hn; auto|].
+      destruct (i_snd i) eqn:Es; cbn [andb]; [|apply acct_fields_eq_refl].
+      destruct (beqb_spec a (i_caller i)) as [->|Hne2]; [exfalso; apply Hn; auto|]. apply acct_fields_eq_refl.
+  Qed.
+
+  (* ================================================================== *)
+  (* 8. SetUserName                                                      *)
+  (* ================================================================== *)
+  Definition username_msg (i : input) (a0 : bytes) : transfer :=
+    {| tr_value := 0; tr_gasLimit := i_gas i; tr_gasLocked := i_gasLocked i;
+       tr_data := msg_data C.BuiltInFunctionSetUserName [a0];
+       tr_callType := C.AsynchronousCall; tr_sender := i_caller i |}.
+
+  Lemma set_user_name_spec i s o s' :
+    f_set_user_name E i s = (Ok o, s') ->
+    (i_value i = 0%Z /\ (g_SaveUserName G <= i_gas i)%N /\ In (i_caller i) (dns E))
+    /\ exists a0, i_args i = [a0]
+       (* origin side: the recipient lives on another shard; only a message is emitted *)
+       /\ (i_dst i = false ->
+           s' = s /\ o = set_accounts (mk_out rcOk 0)
+                          [{| oc_addr := i_rcpt i; oc_delta := 0; oc_transfers := [username_msg i a0] |}])
+       (* destination side *)
+       /\ (i_dst i = true ->
+           (enable_change E = true \/ a_username (acct s (i_rcpt i)) = [])
+           /\ o = mk_out rcOk (sub64 (i_gas i) (g_SaveUserName G))
+           /\ acct s' (i_rcpt i) = with_username (acct s (i_rcpt i)) a0
+           /\ (forall a, a <> i_rcpt i -> acct s' a = acct s a)
+           /\ calls s' = calls s /\ allocs s' = allocs s)
+       /\ (forall a k, cell s' a k = cell s a k)
+       /\ unchanged_except (fun _ _ => False) (fun a => a = i_rcpt i /\ i_dst i = true) s s'
+       /\ nofault E s s'.
+  Proof.
+    unfold f_set_user_name. cbv zeta. intros H.
+    apply bind_ok in H as (u1 & s1 & H1 & H). apply guard_ok in H1 as [Hv ->]. apply Z.eqb_eq in Hv.
+    apply bind_ok in H as (u3 & s3 & H3 & H). apply guard_ok in H3 as [Hgas ->].
+    assert (Hg : (g_SaveUserName G <= i_gas i)%N)
+      by (destruct (i_gas i <? g_SaveUserName G)%N eqn:Eg; [discriminate|lia]).
+    apply bind_ok in H as (u4 & s4 & H4 & H). apply guard_ok in H4 as [Hdns ->]. apply bytes_in_true in Hdns.
+    apply bind_ok in H as (u5 & s5 & H5 & H). apply guard_ok in H5 as [Hlen ->]. apply N.eqb_eq in Hlen.
+    apply alen_1 in Hlen as [a0 Ha]. rewrite Ha in H.
+    apply bind_ok in H as (a0' & s1 & H1 & H). apply arg_ok in H1 as (Hn & _ & ->).
+    simpl in Hn. inversion Hn; subst a0'. clear Hn.
+    split; [auto|]. exists a0. split; [exact Ha|].
+    destruct (i_dst i).
+    - cbn [negb] in H. split; [discriminate|].
+      apply bind_ok in H as (d & s1 & H1 & H). apply get_acct_ok in H1 as [-> ->].
+      apply bind_ok in H as (u6 & s6 & H6 & H). apply guard_ok in H6 as [Hen ->].
+      apply bind_ok in H as (u7 & s7 & H7 & H). apply ret_ok in H as [-> <-].
+      pose proof (upd_acct_ok _ _ _ _ _ H7) as (_ & C7 & L7).
+      assert (Hacct : forall a, acct s' a = if beqb a (i_rcpt i) then with_username (acct s (i_rcpt i)) a0 else acct s a).
+      { intros a. apply (upd_acct_acct _ _ _ _ _ a H7). }
+      split.
+      { intros _. split.
+        { destruct (enable_change E); [left; reflexivity|right]. cbn [orb] in Hen.
+          destruct (a_username (acct s (i_rcpt i))); [reflexivity|discriminate]. }
+        split; [reflexivity|]. split; [rewrite Hacct, beqb_refl; reflexivity|].
+        split; [intros a Hne; rewrite Hacct, (beqb_false _ _ Hne); reflexivity|]. split; assumption. }
+      split.
+      { intros a k. unfold cell. rewrite Hacct. destruct (beqb a (i_rcpt i)) eqn:Eb; [|reflexivity].
+        apply beqb_true in Eb. subst a. reflexivity. }
+      split; [|eapply upd_acct_nofault; eauto]. split.
+      + intros a k _. unfold cell. rewrite Hacct. destruct (beqb a (i_rcpt i)) eqn:Eb; [|reflexivity].
+        apply beqb_true in Eb. subst a. reflexivity.
+      + intros a Hn. rewrite Hacct. destruct (beqb_spec a (i_rcpt i)) as [->|_]; [exfalso; apply Hn; auto|].
+        apply acct_fields_eq_refl.
+    - cbn [negb] in H. apply ret_ok in H as [-> <-].
+      split; [intros _; split; reflexivity|]. split; [discriminate|]. split; [reflexivity|].
+      split; [apply unchanged_except_refl|apply nofault_refl].
+  Qed.
+  (* ================================================================== *)
+  (* 9. SaveKeyValue                                                     *)
+  (* ================================================================== *)
+  (* the argument list read as (key, value) pairs *)
+  Fixpoint pairs_of (l : list bytes) : list (bytes * bytes) :=
+    match l with k :: v :: r => (k, v) :: pairs_of r | _ => [] end.
+  Definition unpairs (ps : list (bytes * bytes)) : list bytes := flat_map (fun kv => [fst kv; snd kv]) ps.
+  (* the value of the LAST pair with key k *)
+  Fixpoint last_val (ps : list (bytes * bytes)) (k : bytes) : option bytes :=
+    match ps with
+    | [] => None
+    | (k', v) :: r => match last_val r k with Some x => Some x | None => if beqb k k' then Some v else None end
+    end.
+  (* gas used by the loop, as a function of the caller's storage (uint64 wrap-around as in Go) *)
+  Fixpoint skv_use (st : store) (pairs : list bytes) (use : N) : N :=
+    match pairs with
+    | k :: v :: rest =>
+      let use1 := u64 (use + u64 (u64 (zlen v + zlen k) * g_PersistPerByte G)) in
+      let old := sget st k in
+      if beqb old v then skv_use st rest use1 else
+      let change := if (zlen old <? zlen v)%N then (zlen v - zlen old)%N else 0%N in
+      skv_use (sput st k v) rest (u64 (use1 + u64 (g_StorePerByte G * change)))
+    | _ => use
+    end.
+
+  Lemma pair_ind (Pr : list bytes -> Prop) :
+    Pr [] -> (forall x, Pr [x]) -> (forall k v r, Pr r -> Pr (k :: v :: r)) -> forall l, Pr l.
+  Proof.
+    intros H0 H1 H2. fix IH 1. intros [|k [|v r]]; [exact H0|exact (H1 k)|exact (H2 k v r (IH r))].
+  Qed.
+
+  Lemma last_val_In ps k v : last_val ps k = Some v -> In (k, v) ps.
+  Proof.
+    induction ps as [|[k' v'] r IH]; cbn [last_val]; [discriminate|].
+    destruct (last_val r k) as [x|].
+    - intros [= ->]. right. apply IH. reflexivity.
+    - destruct (beqb_spec k k') as [->|_]; [|discriminate]. intros [= ->]. left. reflexivity.
+  Qed.
+  Lemma last_val_None ps k : last_val ps k = None -> forall v, ~ In (k, v) ps.
+  Proof.
+    induction ps as [|[k' v'] r IH]; cbn [last_val]; [intros _ v []|].
+    destruct (last_val r k) as [x|]; [discriminate|].
+    destruct (beqb_spec k k') as [->|Hne]; [discriminate|]. intros _ v [Hx|Hx].
+    - inversion Hx. congruence.
+    - revert Hx. apply IH. reflexivity.
+  Qed.
+  Lemma last_val_some_of_In ps k v : In (k, v) ps -> exists v', last_val ps k = Some v'.
+  Proof.
+    intros Hin. destruct (last_val ps k) as [x|] eqn:El; [eauto|].
+    exfalso. eapply last_val_None; eauto.
+  Qed.
+  Lemma last_val_app ps k kv :
+    last_val (ps ++ [kv]) k = if beqb k (fst kv) then Some (snd kv) else last_val ps k.
+  Proof.
+    induction ps as [|[k' v'] r IH]; cbn [last_val app].
+    - destruct kv as [k1 v1]. cbn [last_val fst snd]. destruct (beqb k k1); reflexivity.
+    - rewrite IH. destruct (beqb k (fst kv)); [reflexivity|]. reflexivity.
+  Qed.
+
+  Lemma skv_loop_nil a g use : skv_loop E a g [] use = ret use.
+  Proof. reflexivity. Qed.
+  Lemma skv_loop_one a g x use : skv_loop E a g [x] use = panic.
+  Proof. reflexivity. Qed.
+  Lemma skv_loop_cons a g k v rest use :
+    skv_loop E a g (k :: v :: rest) use =
+    (let use1 := u64 (use + u64 (u64 (zlen v + zlen k) * g_PersistPerByte G)) in
+     guard (key_allowed k) EOperationNotPermitted ;;;
+     old <- retrieve a k ;;
+     if beqb old v then skv_loop E a g rest use1 else
+     let change := if (zlen old <? zlen v)%N then (zlen v - zlen old)%N else 0%N in
+     let use2 := u64 (use1 + u64 (g_StorePerByte G * change)) in
+     guard (negb (g <? use2)%N) ENotEnoughGas ;;;
+     save_kv E a k v ;;;
+     skv_loop E a g rest use2).
+  Proof. reflexivity. Qed.
+
+  Lemma skv_loop_spec a g : forall pairs use s u s',
+    skv_loop E a g pairs use s = (Ok u, s') ->
+    pairs = unpairs (pairs_of pairs)
+    /\ Forall (fun kv => key_allowed (fst kv) = true) (pairs_of pairs)
+    /\ u = skv_use (a_store (acct s a)) pairs use
+    /\ (forall k, cell s' a k = match last_val (pairs_of pairs) k with Some v => v | None => cell s a k end)
+    /\ (forall a' k, a' <> a -> cell s' a' k = cell s a' k)
+    /\ (forall a', acct_fields_eq (acct s' a') (acct s a'))
+    /\ allocs s' = allocs s
+    /\ nofault E s s'.
+  Proof.
+    intros pairs. induction pairs as [|x|k v rest IH] using pair_ind; intros use s u s' H.
+    - rewrite skv_loop_nil in H. apply ret_ok in H as [-> ->].
+      repeat split; try reflexivity; try constructor; try lia; intros; try lia; try apply acct_fields_eq_refl.
+    - rewrite skv_loop_one in H. apply panic_ok in H. contradiction.
+    - rewrite skv_loop_cons in H. cbv zeta in H.
+      apply bind_ok in H as (u0 & s0 & H0 & H). apply guard_ok in H0 as [Hka ->].
+      apply bind_ok in H as (old & s0 & H0 & H). apply retrieve_ok in H0 as [-> ->].
+      cbn [pairs_of unpairs flat_map fst snd app skv_use]. cbv zeta. fold (cell s a k).
+      fold (unpairs (pairs_of rest)).
+      assert (Step : exists s1, skv_loop E a g rest
+                 (if beqb (cell s a k) v then u64 (use + u64 (u64 (zlen v + zlen k) * g_PersistPerByte G))
+                  else u64 (u64 (use + u64 (u64 (zlen v + zlen k) * g_PersistPerByte G)) +
+                            u64 (g_StorePerByte G * (if (zlen (cell s a k) <? zlen v)%N then (zlen v - zlen (cell s a k))%N else 0%N))))
+                 s1 = (Ok u, s')
+               /\ (forall k', cell s1 a k' = if beqb k' k then v else cell s a k')
+               /\ a_store (acct s1 a) = (if beqb (cell s a k) v then a_store (acct s a) else sput (a_store (acct s a)) k v)
+               /\ (forall a' k', a' <> a -> cell s1 a' k' = cell s a' k')
+               /\ (forall a', acct_fields_eq (acct s1 a') (acct s a'))
+               /\ allocs s1 = allocs s /\ nofault E s s1).
+      { destruct (beqb_spec (cell s a k) v) as [Hov|Hov].
+        - exists s. split; [exact H|]. split.
+          { intros k'. destruct (beqb_spec k' k) as [->|_]; [exact Hov|reflexivity]. }
+          split; [reflexivity|]. split; [reflexivity|]. split; [intros; apply acct_fields_eq_refl|].
+          split; [reflexivity|apply nofault_refl].
+        - apply bind_ok in H as (u1 & s1 & H1 & H). apply guard_ok in H1 as [_ ->].
+          apply bind_ok in H as (u2 & s2 & H2 & H). apply save_kv_ok in H2.
+          exists s2. split; [exact H|]. split.
+          { intros k'. rewrite (wr_cell _ _ _ _ _ _ a k' H2), beqb_refl. reflexivity. }
+          split; [rewrite (wr_acct_eq _ _ _ _ _ _ H2); reflexivity|].
+          split; [intros a' k' Hne; apply (wr_cell_other _ _ _ _ _ _ _ _ H2); left; exact Hne|].
+          split; [intros a'; apply (wr_fields _ _ _ _ _ _ _ H2)|].
+          split; [apply (wr_allocs _ _ _ _ _ _ H2)|apply (wr_nofault _ _ _ _ _ _ H2)]. }
+      destruct Step as (s1 & Hloop & Hcell1 & Hst1 & Hoth1 & Hf1 & Hal1 & Hnf1).
+      apply IH in Hloop as (Hun & Hall & Hu & Hcell & Hoth & Hf & Hal & Hnf).
+      split; [f_equal; f_equal; exact Hun|].
+      split; [constructor; [exact Hka|exact Hall]|].
+      split.
+      { rewrite Hu, Hst1. destruct (beqb (cell s a k) v); reflexivity. }
+      split.
+      { intros k'. rewrite Hcell, Hcell1. cbn [last_val].
+        destruct (last_val (pairs_of rest) k'); [reflexivity|]. destruct (beqb k' k); reflexivity. }
+      split; [intros a' k' Hne; rewrite Hoth, Hoth1 by exact Hne; reflexivity|].
+      split; [intros a'; eapply acct_fields_eq_trans; [apply Hf|apply Hf1]|].
+      split; [congruence|eapply nofault_trans; eauto].
+  Qed.
+
+  Lemma save_key_value_spec i s o s' :
+    f_save_key_value E i s = (Ok o, s') ->
+    let A := i_args i in
+    let use := skv_use (a_store (acct s (i_caller i))) A (g_SaveKeyValue G) in
+    ((2 <= alen A)%N /\ (alen A mod 2 = 0)%N /\ A = unpairs (pairs_of A)
+     /\ i_value i = 0%Z /\ i_snd i = true /\ i_caller i = i_rcpt i /\ is_sc (i_caller i) = false
+     /\ Forall (fun kv => key_allowed (fst kv) = true) (pairs_of A)
+     /\ (use <= i_gas i)%N)
+    /\ o = mk_out rcOk (sub64 (i_gas i) use)
+    /\ (forall k, cell s' (i_caller i) k =
+                  match last_val (pairs_of A) k with Some v => v | None => cell s (i_caller i) k end)
+    /\ unchanged_except (fun a k => a = i_caller i /\ exists v, In (k, v) (pairs_of A)) (fun _ => False) s s'
+    /\ allocs s' = allocs s
+    /\ nofault E s s'.
+  Proof.
+    unfold f_save_key_value. cbv zeta. intros H.
+    apply bind_ok in H as (u0 & s0 & H0 & H). apply guard_ok in H0 as [Hl2 ->].
+    apply bind_ok in H as (u1 & s1 & H1 & H). apply guard_ok in H1 as [Hev ->]. apply N.eqb_eq in Hev.
+    apply bind_ok in H as (u2 & s2 & H2 & H). apply guard_ok in H2 as [Hv ->]. apply Z.eqb_eq in Hv.
+    apply bind_ok in H as (u3 & s3 & H3 & H). apply guard_ok in H3 as [Hsnd ->].
+    apply bind_ok in H as (u4 & s4 & H4 & H). apply guard_ok in H4 as [Hcr ->]. apply beqb_true in Hcr.
+    apply bind_ok in H as (u5 & s5 & H5 & H). apply guard_ok in H5 as [Hsc ->].
+    apply bind_ok in H as (use & s1 & H1 & H).
+    apply skv_loop_spec in H1 as (Hun & Hall & -> & Hcell & Hoth & Hf & Hal & Hnf).
+    apply bind_ok in H as (u6 & s6 & H6 & H). apply guard_ok in H6 as [Hgas ->]. apply ret_ok in H as [-> <-].
+    split.
+    { split; [destruct (alen (i_args i) <? 2)%N eqn:El; [discriminate|lia]|]. split; [exact Hev|].
+      split; [exact Hun|]. split; [exact Hv|]. split; [exact Hsnd|]. split; [exact Hcr|].
+      split; [destruct (is_sc (i_caller i)); [discriminate|reflexivity]|]. split; [exact Hall|].
+      match type of Hgas with negb (_ <? ?x)%N = true => destruct (i_gas i <? x)%N eqn:Eg; [discriminate|lia] end. }
+    split; [reflexivity|]. split; [exact Hcell|]. split; [|split; [exact Hal|exact Hnf]].
+    split.
+    - intros a k Hn. destruct (beqb_spec a (i_caller i)) as [->|Hne]; [|apply Hoth; exact Hne].
+      rewrite Hcell. destruct (last_val (pairs_of (i_args i)) k) as [v|] eqn:El; [|reflexivity].
+      exfalso. apply Hn. split; [reflexivity|]. exists v. apply last_val_In. exact El.
+    - intros a _. apply Hf.
+  Qed.
+  (* ================================================================== *)
+  (* 10. The dispatch: [exec] at the names of these functions            *)
+  (* ================================================================== *)
+  Lemma exec_claim i : exec E C.BuiltInFunctionClaimDeveloperRewards i = f_claim_rewards E i.
+  Proof. reflexivity. Qed.
+  Lemma exec_change_owner i : exec E C.BuiltInFunctionChangeOwnerAddress i = f_change_owner E i.
+  Proof. reflexivity. Qed.
+  Lemma exec_set_user_name i : exec E C.BuiltInFunctionSetUserName i = f_set_user_name E i.
+  Proof. reflexivity. Qed.
+  Lemma exec_save_key_value i : exec E C.BuiltInFunctionSaveKeyValue i = f_save_key_value E i.
+  Proof. reflexivity. Qed.
+  Lemma exec_pause i : exec E C.BuiltInFunctionESDTPause i = f_pause E true i.
+  Proof. reflexivity. Qed.
+  Lemma exec_unpause i : exec E C.BuiltInFunctionESDTUnPause i = f_pause E false i.
+  Proof. reflexivity. Qed.
+  Lemma exec_freeze i : exec E C.BuiltInFunctionESDTFreeze i = f_freeze_wipe E true false i.
+  Proof. reflexivity. Qed.
+  Lemma exec_unfreeze i : exec E C.BuiltInFunctionESDTUnFreeze i = f_freeze_wipe E false false i.
+  Proof. reflexivity. Qed.
+  Lemma exec_wipe i : exec E C.BuiltInFunctionESDTWipe i = f_freeze_wipe E false true i.
+  Proof. reflexivity. Qed.
+  Lemma exec_unset_role i : exec E C.BuiltInFunctionUnSetESDTRole i = f_roles E false i.
+  Proof. reflexivity. Qed.
+  Lemma exec_set_role i : exec E C.BuiltInFunctionSetESDTRole i = f_roles E true i.
+  Proof. reflexivity. Qed.
+  Lemma exec_role_transfer i : exec E C.BuiltInFunctionESDTNFTCreateRoleTransfer i = f_create_role_transfer E i.
+  Proof. reflexivity. Qed.
+  (* ================================================================== *)
+  (* 11. Corollaries                                                     *)
+  (* ================================================================== *)
+  (* combined role-transfer spec: which branch runs is decided by the caller alone *)
+  Lemma role_transfer_requires i s o s' :
+    f_create_role_transfer E i s = (Ok o, s') ->
+    i_value i = 0%Z /\ i_snd i = false /\ i_dst i = true /\ exists tok a1, i_args i = [tok; a1].
+  Proof. apply role_transfer_guards. Qed.
+
+  Lemma role_transfer_frame i s o s' :
+    f_create_role_transfer E i s = (Ok o, s') ->
+    exists tok a1, i_args i = [tok; a1]
+      /\ unchanged_except
+           (fun a k => (a = i_rcpt i \/ (a = a1 /\ i_caller i = SC /\ shard_of E a1 = self_shard E))
+                       /\ (k = NP ++ tok \/ k = RP ++ tok)) (fun _ => False) s s'
+      /\ nofault E s s'.
+  Proof.
+    intros H. destruct (beqb_spec (i_caller i) SC) as [Hcl|Hcl].
+    - apply role_transfer_owner_spec in H as (_ & tok & a1 & Ha & _ & _ & _ & Hsh & Hnf); [|exact Hcl].
+      exists tok, a1. split; [exact Ha|]. split; [|exact Hnf].
+      destruct (shard_of E a1 =? self_shard E)%N eqn:Es.
+      + apply N.eqb_eq in Es. destruct Hsh as (_ & _ & _ & Hu).
+        eapply unchanged_except_weaken; [| |exact Hu]; cbv beta; [|tauto].
+        intros a k [[->| ->] Hk]; tauto.
+      + destruct Hsh as (_ & _ & Hu). eapply unchanged_except_weaken; [| |exact Hu]; cbv beta; tauto.
+    - apply role_transfer_delivered_spec in H as (_ & tok & a1 & Ha & _ & _ & _ & _ & Hu & Hnf); [|exact Hcl].
+      exists tok, a1. split; [exact Ha|]. split; [|exact Hnf].
+      eapply unchanged_except_weaken; [| |exact Hu]; cbv beta; tauto.
+  Qed.
+
+  (* ---------------- (i) effect on token balances ---------------- *)
+  Lemma system_balance_effect_freeze f i s o s' :
+    f_freeze_wipe E f false i s = (Ok o, s') -> forall a k, balance E s' a k = balance E s a k.
+  Proof.
+    intros H a k. apply freeze_spec in H as (_ & tok & t & _ & _ & _ & _ & _ & _ & Hb & _ & Hu & _).
+    destruct (beqb_spec a (i_rcpt i)) as [->|Ha]; [destruct (beqb_spec k (P ++ tok)) as [->|Hk]|].
+    - exact Hb.
+    - apply (ue_balance E _ _ _ _ Hu). intros [_ Hx]. contradiction.
+    - apply (ue_balance E _ _ _ _ Hu). intros [Hx _]. contradiction.
+  Qed.
+  Lemma system_balance_effect_wipe f i s o s' :
+    f_freeze_wipe E f true i s = (Ok o, s') ->
+    exists tok, i_args i = [tok]
+      /\ frozen_at E s (i_rcpt i) (P ++ tok) = true
+      /\ balance E s' (i_rcpt i) (P ++ tok) = 0%Z
+      /\ forall a k, ~ (a = i_rcpt i /\ k = P ++ tok) -> balance E s' a k = balance E s a k.
+  Proof.
+    intros H. apply wipe_spec in H as (_ & tok & t & Ha & _ & _ & _ & Hfr & _ & _ & Hb & _ & Hu & _).
+    exists tok. split; [exact Ha|]. split; [exact Hfr|]. split; [exact Hb|].
+    intros a k Hn. apply (ue_balance E _ _ _ _ Hu). exact Hn.
+  Qed.
+  Lemma system_balance_effect_pause p i s o s' :
+    f_pause E p i s = (Ok o, s') ->
+    exists tok, i_args i = [tok]
+      /\ balance E s' SYS (P ++ tok) = bal_of_bytes E (flag_bytes p)
+      /\ forall a k, ~ (a = SYS /\ k = P ++ tok) -> balance E s' a k = balance E s a k.
+  Proof.
+    intros H. apply pause_spec in H as (_ & tok & Ha & _ & _ & _ & Hb & Hu & _).
+    exists tok. split; [exact Ha|]. split; [exact Hb|].
+    intros a k Hn. apply (ue_balance E _ _ _ _ Hu). exact Hn.
+  Qed.
+  Lemma system_balance_effect_roles set i s o s' :
+    f_roles E set i s = (Ok o, s') -> forall a x, balance E s' a (P ++ x) = balance E s a (P ++ x).
+  Proof.
+    intros H a x. apply roles_spec in H as (_ & tok & rs & _ & _ & _ & _ & Hu & _).
+    apply (ue_balance E _ _ _ _ Hu). intros [_ Hx]. revert Hx. apply P_RP_disjoint.
+  Qed.
+  Lemma system_balance_effect_role_transfer i s o s' :
+    f_create_role_transfer E i s = (Ok o, s') -> forall a x, balance E s' a (P ++ x) = balance E s a (P ++ x).
+  Proof.
+    intros H a x. apply role_transfer_frame in H as (tok & a1 & _ & Hu & _).
+    apply (ue_balance E _ _ _ _ Hu). intros [_ [Hx|Hx]]; revert Hx; [apply P_NP_disjoint|apply P_RP_disjoint].
+  Qed.
+  Lemma system_balance_effect_change_owner i s o s' :
+    f_change_owner E i s = (Ok o, s') -> forall a k, balance E s' a k = balance E s a k.
+  Proof.
+    intros H a k. apply change_owner_spec in H as (_ & a0 & rest & _ & _ & _ & _ & _ & _ & Hcell & _).
+    unfold balance. rewrite Hcell. reflexivity.
+  Qed.
+  Lemma system_balance_effect_claim i s o s' :
+    f_claim_rewards E i s = (Ok o, s') -> forall a k, balance E s' a k = balance E s a k.
+  Proof.
+    intros H a k. apply claim_rewards_spec in H as (_ & _ & _ & Hcell & _).
+    unfold balance. rewrite Hcell. reflexivity.
+  Qed.
+  Lemma system_balance_effect_set_user_name i s o s' :
+    f_set_user_name E i s = (Ok o, s') -> forall a k, balance E s' a k = balance E s a k.
+  Proof.
+    intros H a k. apply set_user_name_spec in H as (_ & a0 & _ & _ & _ & Hcell & _).
+    unfold balance. rewrite Hcell. reflexivity.
+  Qed.
+
+  (* SaveKeyValue never touches a cell whose key carries the protected prefix *)
+  Theorem savekv_never_protected i s o s' :
+    f_save_key_value E i s = (Ok o, s') ->
+    forall a k, prefix_of C.ElrondProtectedKeyPrefix k = true -> cell s' a k = cell s a k.
+  Proof.
+    intros H a k Hp. apply save_key_value_spec in H as (Hg & _ & _ & Hu & _).
+    destruct Hg as (_ & _ & _ & _ & _ & _ & _ & Hall & _).
+    apply (ue_cell _ _ _ _ Hu). intros [_ [v Hin]].
+    rewrite Forall_forall in Hall. specialize (Hall _ Hin). cbn [fst] in Hall.
+    rewrite (key_allowed_prefix _ Hp) in Hall. discriminate.
+  Qed.
+  Lemma system_balance_effect_save_key_value i s o s' :
+    f_save_key_value E i s = (Ok o, s') ->
+    forall a k, prefix_of C.ElrondProtectedKeyPrefix k = true -> balance E s' a k = balance E s a k.
+  Proof. intros H a k Hp. unfold balance. rewrite (savekv_never_protected _ _ _ _ H a k Hp). reflexivity. Qed.
+
+  (* through the dispatch: the functions that never change a token balance (token keys are P ++ x;
+     an NFT key nft_key (P ++ tok) n is of that form too) *)
+  Definition balance_neutral_funs : list bytes :=
+    [C.BuiltInFunctionESDTFreeze; C.BuiltInFunctionESDTUnFreeze; C.BuiltInFunctionSetESDTRole;
+     C.BuiltInFunctionUnSetESDTRole; C.BuiltInFunctionESDTNFTCreateRoleTransfer;
+     C.BuiltInFunctionChangeOwnerAddress; C.BuiltInFunctionClaimDeveloperRewards;
+     C.BuiltInFunctionSetUserName; C.BuiltInFunctionSaveKeyValue].
+  Theorem system_balance_effect f i s o s' :
+    exec E f i s = (Ok o, s') -> In f balance_neutral_funs ->
+    forall a x, balance E s' a (P ++ x) = balance E s a (P ++ x).
+  Proof.
+    intros H Hin a x. unfold balance_neutral_funs in Hin. cbn [In] in Hin.
+    destruct Hin as [<-|[<-|[<-|[<-|[<-|[<-|[<-|[<-|[<-|[]]]]]]]]]].
+    - rewrite exec_freeze in H. eapply system_balance_effect_freeze; eauto.
+    - rewrite exec_unfreeze in H. eapply system_balance_effect_freeze; eauto.
+    - rewrite exec_set_role in H. eapply system_balance_effect_roles; eauto.
+    - rewrite exec_unset_role in H. eapply system_balance_effect_roles; eauto.
+    - rewrite exec_role_transfer in H. eapply system_balance_effect_role_transfer; eauto.
+    - rewrite exec_change_owner in H. eapply system_balance_effect_change_owner; eauto.
+    - rewrite exec_claim in H. eapply system_balance_effect_claim; eauto.
+    - rewrite exec_set_user_name in H. eapply system_balance_effect_set_user_name; eauto.
+    - rewrite exec_save_key_value in H. eapply system_balance_effect_save_key_value; eauto using P_protected.
+  Qed.
+  Corollary system_balance_effect_nft f i s o s' :
+    exec E f i s = (Ok o, s') -> In f balance_neutral_funs ->
+    forall a tok n, balance E s' a (nft_key (P ++ tok) n) = balance E s a (nft_key (P ++ tok) n).
+  Proof. intros H Hin a tok n. rewrite nft_key_app. eapply system_balance_effect; eauto. Qed.
+  Theorem system_balance_effect_pause_exec f i s o s' :
+    exec E f i s = (Ok o, s') -> f = C.BuiltInFunctionESDTPause \/ f = C.BuiltInFunctionESDTUnPause ->
+    exists tok, i_args i = [tok]
+      /\ forall a k, ~ (a = SYS /\ k = P ++ tok) -> balance E s' a k = balance E s a k.
+  Proof.
+    intros H [-> | ->]; [rewrite exec_pause in H|rewrite exec_unpause in H];
+      apply system_balance_effect_pause in H as (tok & Ha & _ & Hb); eauto.
+  Qed.
+  Theorem system_balance_effect_wipe_exec i s o s' :
+    exec E C.BuiltInFunctionESDTWipe i s = (Ok o, s') ->
+    exists tok, i_args i = [tok]
+      /\ frozen_at E s (i_rcpt i) (P ++ tok) = true
+      /\ balance E s' (i_rcpt i) (P ++ tok) = 0%Z
+      /\ forall a k, ~ (a = i_rcpt i /\ k = P ++ tok) -> balance E s' a k = balance E s a k.
+  Proof. rewrite exec_wipe. apply system_balance_effect_wipe. Qed.
+
+  (* ---------------- (ii) who may call ---------------- *)
+  Lemma freeze_wipe_requires_sc f w i s o s' : f_freeze_wipe E f w i s = (Ok o, s') -> i_caller i = SC.
+  Proof.
+    destruct w; intros H; [apply wipe_spec in H|apply freeze_spec in H]; destruct H as ((_ & H & _) & _); exact H.
+  Qed.
+  Lemma pause_requires_sc p i s o s' : f_pause E p i s = (Ok o, s') -> i_caller i = SC.
+  Proof. intros H. apply pause_spec in H as ((_ & H & _) & _). exact H. Qed.
+  Lemma roles_requires_sc set i s o s' : f_roles E set i s = (Ok o, s') -> i_caller i = SC.
+  Proof. intros H. apply roles_spec in H as ((_ & _ & H & _) & _). exact H. Qed.
+  Definition system_funs : list bytes :=
+    [C.BuiltInFunctionESDTFreeze; C.BuiltInFunctionESDTUnFreeze; C.BuiltInFunctionESDTWipe;
+     C.BuiltInFunctionESDTPause; C.BuiltInFunctionESDTUnPause;
+     C.BuiltInFunctionSetESDTRole; C.BuiltInFunctionUnSetESDTRole].
+  Theorem system_requires_sc f i s o s' :
+    exec E f i s = (Ok o, s') -> In f system_funs -> i_caller i = SC /\ i_value i = 0%Z.
+  Proof.
+    intros H Hin. unfold system_funs in Hin. cbn [In] in Hin.
+    destruct Hin as [<-|[<-|[<-|[<-|[<-|[<-|[<-|[]]]]]]]].
+    - rewrite exec_freeze in H. apply freeze_spec in H as ((? & ? & _) & _). auto.
+    - rewrite exec_unfreeze in H. apply freeze_spec in H as ((? & ? & _) & _). auto.
+    - rewrite exec_wipe in H. apply wipe_spec in H as ((? & ? & _) & _). auto.
+    - rewrite exec_pause in H. apply pause_spec in H as ((? & ? & _) & _). auto.
+    - rewrite exec_unpause in H. apply pause_spec in H as ((? & ? & _) & _). auto.
+    - rewrite exec_set_role in H. apply roles_spec in H as ((? & _ & ? & _) & _). auto.
+    - rewrite exec_unset_role in H. apply roles_spec in H as ((? & _ & ? & _) & _). auto.
+  Qed.
+  (* the recipient-side account must be present for freeze/unfreeze/wipe/roles; pause needs a system-account recipient *)
+  Theorem system_requires_dst f i s o s' :
+    exec E f i s = (Ok o, s') ->
+    In f [C.BuiltInFunctionESDTFreeze; C.BuiltInFunctionESDTUnFreeze; C.BuiltInFunctionESDTWipe;
+          C.BuiltInFunctionSetESDTRole; C.BuiltInFunctionUnSetESDTRole; C.BuiltInFunctionESDTNFTCreateRoleTransfer] ->
+    i_dst i = true.
+  Proof.
+    intros H Hin. cbn [In] in Hin. destruct Hin as [<-|[<-|[<-|[<-|[<-|[<-|[]]]]]]].
+    - rewrite exec_freeze in H. apply freeze_spec in H as ((_ & _ & ?) & _). auto.
+    - rewrite exec_unfreeze in H. apply freeze_spec in H as ((_ & _ & ?) & _). auto.
+    - rewrite exec_wipe in H. apply wipe_spec in H as ((_ & _ & ?) & _). auto.
+    - rewrite exec_set_role in H. apply roles_spec in H as ((_ & _ & _ & ?) & _). auto.
+    - rewrite exec_unset_role in H. apply roles_spec in H as ((_ & _ & _ & ?) & _). auto.
+    - rewrite exec_role_transfer in H. apply role_transfer_guards in H as (_ & _ & ? & _). auto.
+  Qed.
+  Theorem pause_requires_sys f i s o s' :
+    exec E f i s = (Ok o, s') -> f = C.BuiltInFunctionESDTPause \/ f = C.BuiltInFunctionESDTUnPause ->
+    is_sys (i_rcpt i) = true.
+  Proof.
+    intros H [-> | ->]; [rewrite exec_pause in H|rewrite exec_unpause in H];
+      apply pause_spec in H as ((_ & _ & ?) & _); assumption.
+  Qed.
+  (* role transfer: both branches refuse a call whose sender account is on this shard; the branch is
+     selected by the caller (SC: at the current owner; anybody else: the delivered hand-over) *)
+  Theorem role_transfer_requires_exec i s o s' :
+    exec E C.BuiltInFunctionESDTNFTCreateRoleTransfer i s = (Ok o, s') ->
+    i_value i = 0%Z /\ i_snd i = false /\ i_dst i = true.
+  Proof. rewrite exec_role_transfer. intros H. apply role_transfer_guards in H as (? & ? & ? & _). auto. Qed.
+
+  Theorem owner_only f i s o s' :
+    exec E f i s = (Ok o, s') ->
+    f = C.BuiltInFunctionChangeOwnerAddress \/ f = C.BuiltInFunctionClaimDeveloperRewards ->
+    i_dst i = true -> i_caller i = a_owner (acct s (i_rcpt i)).
+  Proof.
+    intros H [-> | ->] Hd.
+    - rewrite exec_change_owner in H. apply change_owner_spec in H as (_ & a0 & rest & _ & _ & _ & _ & _ & H & _).
+      apply H. exact Hd.
+    - rewrite exec_claim in H. apply claim_rewards_spec in H as (_ & _ & H & _). apply H. exact Hd.
+  Qed.
+  Theorem dns_only i s o s' :
+    exec E C.BuiltInFunctionSetUserName i s = (Ok o, s') ->
+    In (i_caller i) (dns E)
+    /\ (i_dst i = true -> enable_change E = true \/ a_username (acct s (i_rcpt i)) = []).
+  Proof.
+    rewrite exec_set_user_name. intros H.
+    apply set_user_name_spec in H as ((_ & _ & Hd) & a0 & _ & _ & Hdst & _). split; [exact Hd|].
+    intros Hx. apply Hdst. exact Hx.
+  Qed.
+
+  (* ---------------- (iii) SaveKeyValue ---------------- *)
+  Theorem savekv_accepted_only_if i s o s' :
+    f_save_key_value E i s = (Ok o, s') ->
+    (2 <= alen (i_args i))%N /\ (alen (i_args i) mod 2 = 0)%N
+    /\ i_value i = 0%Z /\ i_snd i = true /\ i_caller i = i_rcpt i /\ is_sc (i_caller i) = false
+    /\ (forall k v, In (k, v) (pairs_of (i_args i)) ->
+          key_allowed k = true /\ prefix_of C.ElrondProtectedKeyPrefix k = false)
+    /\ (skv_use (a_store (acct s (i_caller i))) (i_args i) (g_SaveKeyValue G) <= i_gas i)%N.
+  Proof.
+    intros H. apply save_key_value_spec in H as ((H1 & H2 & _ & H3 & H4 & H5 & H6 & Hall & Hg) & _).
+    repeat (split; [assumption|]). split; [|exact Hg].
+    intros k v Hin. rewrite Forall_forall in Hall. specialize (Hall _ Hin). cbn [fst] in Hall.
+    split; [exact Hall|apply key_allowed_not_protected; exact Hall].
+  Qed.
+  Theorem savekv_writes_exactly i s o s' :
+    f_save_key_value E i s = (Ok o, s') ->
+    (forall k, cell s' (i_caller i) k =
+               match last_val (pairs_of (i_args i)) k with Some v => v | None => cell s (i_caller i) k end)
+    /\ (forall a k, a <> i_caller i -> cell s' a k = cell s a k)
+    /\ (forall a, acct_fields_eq (acct s' a) (acct s a))
+    /\ (forall k v, last_val (pairs_of (i_args i)) k = Some v -> In (k, v) (pairs_of (i_args i)) /\ key_allowed k = true).
+  Proof.
+    intros H. pose proof (savekv_accepted_only_if _ _ _ _ H) as (_ & _ & _ & _ & _ & _ & Hk & _).
+    apply save_key_value_spec in H as (_ & _ & Hcell & Hu & _).
+    split; [exact Hcell|]. split; [|split].
+    - intros a k Hne. apply (ue_cell _ _ _ _ Hu). intros [Hx _]. contradiction.
+    - intros a. apply (ue_fields _ _ _ _ Hu). tauto.
+    - intros k v Hl. apply last_val_In in Hl. split; [exact Hl|]. apply (Hk _ _ Hl).
+  Qed.
+
+  (* ---------------- (iv) footprints ---------------- *)
+  (* The five system functions write only cells with the protected prefix and no account field;
+     the account-level functions write no storage cell at all; SaveKeyValue writes only unprotected
+     cells of the caller and no account field. *)
+  Lemma ue_protected_only (F : bytes -> bytes -> Prop) (Gf : bytes -> Prop) s s' :
+    unchanged_except F Gf s s' ->
+    (forall a k, F a k -> prefix_of C.ElrondProtectedKeyPrefix k = true) ->
+    forall a k, prefix_of C.ElrondProtectedKeyPrefix k = false -> cell s' a k = cell s a k.
+  Proof.
+    intros Hu HF a k Hp. apply (ue_cell _ _ _ _ Hu). intros Hx. apply HF in Hx. congruence.
+  Qed.
+  Theorem system_footprint f i s o s' :
+    exec E f i s = (Ok o, s') -> In f (C.BuiltInFunctionESDTNFTCreateRoleTransfer :: system_funs) ->
+    (forall a k, prefix_of C.ElrondProtectedKeyPrefix k = false -> cell s' a k = cell s a k)
+    /\ (forall a, acct_fields_eq (acct s' a) (acct s a))
+    /\ nofault E s s'.
+  Proof.
+    intros H Hin.
+    assert (Hex : exists F, unchanged_except F (fun _ => False) s s'
+                            /\ (forall a k, F a k -> prefix_of C.ElrondProtectedKeyPrefix k = true) /\ nofault E s s').
+    { unfold system_funs in Hin. cbn [In] in Hin.
+      destruct Hin as [<-|[<-|[<-|[<-|[<-|[<-|[<-|[<-|[]]]]]]]]].
+      - rewrite exec_role_transfer in H. apply role_transfer_frame in H as (tok & a1 & _ & Hu & Hnf).
+        eexists. split; [exact Hu|]. split; [|exact Hnf]. cbv beta. intros a k [_ [-> | ->]]; [apply NP_protected|apply RP_protected].
+      - rewrite exec_freeze in H. apply freeze_spec in H as (_ & tok & t & _ & _ & _ & _ & _ & _ & _ & _ & Hu & Hnf).
+        eexists. split; [exact Hu|]. split; [|exact Hnf]. cbv beta. intros a k [_ ->]. apply P_protected.
+      - rewrite exec_unfreeze in H. apply freeze_spec in H as (_ & tok & t & _ & _ & _ & _ & _ & _ & _ & _ & Hu & Hnf).
+        eexists. split; [exact Hu|]. split; [|exact Hnf]. cbv beta. intros a k [_ ->]. apply P_protected.
+      - rewrite exec_wipe in H. apply wipe_spec in H as (_ & tok & t & _ & _ & _ & _ & _ & _ & _ & _ & _ & Hu & Hnf).
+        eexists. split; [exact Hu|]. split; [|exact Hnf]. cbv beta. intros a k [_ ->]. apply P_protected.
+      - rewrite exec_pause in H. apply pause_spec in H as (_ & tok & _ & _ & _ & _ & _ & Hu & Hnf & _).
+        eexists. split; [exact Hu|]. split; [|exact Hnf]. cbv beta. intros a k [_ ->]. apply P_protected.
+      - rewrite exec_unpause in H. apply pause_spec in H as (_ & tok & _ & _ & _ & _ & _ & Hu & Hnf & _).
+        eexists. split; [exact Hu|]. split; [|exact Hnf]. cbv beta. intros a k [_ ->]. apply P_protected.
+      - rewrite exec_set_role in H. apply roles_spec in H as (_ & tok & rs & _ & _ & _ & _ & Hu & Hnf).
+        eexists. split; [exact Hu|]. split; [|exact Hnf]. cbv beta. intros a k [_ ->]. apply RP_protected.
+      - rewrite exec_unset_role in H. apply roles_spec in H as (_ & tok & rs & _ & _ & _ & _ & Hu & Hnf).
+        eexists. split; [exact Hu|]. split; [|exact Hnf]. cbv beta. intros a k [_ ->]. apply RP_protected. }
+    destruct Hex as (F & Hu & HF & Hnf).
+    split; [eapply ue_protected_only; eauto|]. split; [|exact Hnf].
+    intros a. apply (ue_fields _ _ _ _ Hu). tauto.
+  Qed.
+  Theorem account_footprint f i s o s' :
+    exec E f i s = (Ok o, s') ->
+    In f [C.BuiltInFunctionChangeOwnerAddress; C.BuiltInFunctionClaimDeveloperRewards; C.BuiltInFunctionSetUserName] ->
+    (forall a k, cell s' a k = cell s a k)
+    /\ (forall a, a <> i_rcpt i -> a <> i_caller i -> acct_fields_eq (acct s' a) (acct s a))
+    /\ (i_dst i = false -> same_world s s')
+    /\ nofault E s s'.
+  Proof.
+    intros H Hin. cbn [In] in Hin. destruct Hin as [<-|[<-|[<-|[]]]].
+    - rewrite exec_change_owner in H.
+      apply change_owner_spec in H as (_ & a0 & rest & _ & _ & _ & _ & Hnd & _ & Hcell & Hu & Hnf).
+      split; [exact Hcell|]. split; [|split; [|exact Hnf]].
+      + intros a Hn _. apply (ue_fields _ _ _ _ Hu). tauto.
+      + intros Hd. rewrite (Hnd Hd). apply same_world_refl.
+    - rewrite exec_claim in H. apply claim_rewards_spec in H as (_ & Hnd & _ & Hcell & Hu & Hnf).
+      split; [exact Hcell|]. split; [|split; [|exact Hnf]].
+      + intros a Hn1 Hn2. apply (ue_fields _ _ _ _ Hu). tauto.
+      + intros Hd. destruct (Hnd Hd) as [-> _]. apply same_world_refl.
+    - rewrite exec_set_user_name in H.
+      apply set_user_name_spec in H as (_ & a0 & _ & Hnd & _ & Hcell & Hu & Hnf).
+      split; [exact Hcell|]. split; [|split; [|exact Hnf]].
+      + intros a Hn _. apply (ue_fields _ _ _ _ Hu). tauto.
+      + intros Hd. destruct (Hnd Hd) as [-> _]. apply same_world_refl.
+  Qed.
+  Theorem savekv_footprint i s o s' :
+    exec E C.BuiltInFunctionSaveKeyValue i s = (Ok o, s') ->
+    (forall a k, a <> i_caller i \/ prefix_of C.ElrondProtectedKeyPrefix k = true -> cell s' a k = cell s a k)
+    /\ (forall a, acct_fields_eq (acct s' a) (acct s a))
+    /\ nofault E s s'.
+  Proof.
+    rewrite exec_save_key_value. intros H.
+    pose proof (savekv_never_protected _ _ _ _ H) as Hp.
+    pose proof (savekv_writes_exactly _ _ _ _ H) as (_ & Hoth & Hf & _).
+    apply save_key_value_spec in H as (_ & _ & _ & _ & _ & Hnf).
+    split; [|split; [exact Hf|exact Hnf]]. intros a k [Hne|Hk]; [apply Hoth; exact Hne|apply Hp; exact Hk].
+  Qed.
+  (* the only function among these that changes an [a_owner] is ChangeOwnerAddress; the only one that changes
+     an [a_username] is SetUserName *)
+  Theorem owner_username_stable f i s o s' :
+    exec E f i s = (Ok o, s') ->
+    In f (C.BuiltInFunctionSaveKeyValue :: C.BuiltInFunctionClaimDeveloperRewards ::
+          C.BuiltInFunctionESDTNFTCreateRoleTransfer :: system_funs) ->
+    forall a, a_owner (acct s' a) = a_owner (acct s a) /\ a_username (acct s' a) = a_username (acct s a).
+  Proof.
+    intros H Hin a. cbn [In] in Hin. destruct Hin as [<-|[<-|Hin]].
+    - apply savekv_footprint in H as (_ & Hf & _). destruct (Hf a) as (_ & ? & ? & _). auto.
+    - rewrite exec_claim in H. apply claim_rewards_spec in H as (_ & Hnd & Hd & _).
+      destruct (i_dst i) eqn:Ed.
+      + destruct (Hd eq_refl) as (_ & _ & _ & Hacct & _). rewrite Hacct.
+        destruct (i_snd i && beqb a (i_caller i))%bool; destruct (beqb a (i_rcpt i)); split; reflexivity.
+      + destruct (Hnd eq_refl) as [-> _]. auto.
+    - apply system_footprint in H as (_ & Hf & _); [|exact Hin]. destruct (Hf a) as (_ & ? & ? & _). auto.
+  Qed.
 End Spec.
+
+Print Assumptions pause_spec.
+Print Assumptions freeze_spec.
+Print Assumptions wipe_spec.
+Print Assumptions roles_spec.
+Print Assumptions role_transfer_owner_spec.
+Print Assumptions role_transfer_delivered_spec.
+Print Assumptions change_owner_spec.
+Print Assumptions claim_rewards_spec.
+Print Assumptions set_user_name_spec.
+Print Assumptions skv_loop_spec.
+Print Assumptions save_key_value_spec.
+Print Assumptions system_balance_effect.
+Print Assumptions system_balance_effect_pause_exec.
+Print Assumptions system_balance_effect_wipe_exec.
+Print Assumptions system_requires_sc.
+Print Assumptions owner_only.
+Print Assumptions dns_only.
+Print Assumptions savekv_never_protected.
+Print Assumptions savekv_accepted_only_if.
+Print Assumptions savekv_writes_exactly.
+Print Assumptions system_footprint.
+Print Assumptions account_footprint.
+Print Assumptions savekv_footprint.
+Print Assumptions owner_username_stable.
